@@ -29,6 +29,7 @@ import (
 	"sort"
 	"strings"
 	"sync"
+	"syscall"
 	"time"
 
 	"github.com/gin-gonic/gin"
@@ -300,6 +301,7 @@ type pManifest struct {
 
 func project(dir string) map[string]any {
 	mans := []map[string]any{}
+	inodes := map[uint64][]map[string]any{} // files of the store that share an inode (hard links)
 	emptyDirs := 0
 	mroot := filepath.Join(dir, "manifests")
 	filepath.Walk(mroot, func(p string, info os.FileInfo, err error) error {
@@ -314,6 +316,7 @@ func project(dir string) map[string]any {
 			return nil
 		}
 		e := map[string]any{"path": filepath.ToSlash(rel)}
+		noteIdentity(e, "manifests/"+filepath.ToSlash(rel), p, info, inodes)
 		b, rerr := os.ReadFile(p)
 		var m pManifest
 		if rerr == nil {
@@ -350,7 +353,32 @@ func project(dir string) map[string]any {
 			h := sha256.New()
 			n, _ := io.Copy(h, f)
 			f.Close()
-			blobs = append(blobs, map[string]any{"name": e.Name(), "sha": hex.EncodeToString(h.Sum(nil)), "size": n})
+			be := map[string]any{"name": e.Name(), "sha": hex.EncodeToString(h.Sum(nil)), "size": n}
+			if li, err := os.Lstat(p); err == nil {
+				noteIdentity(be, "blobs/"+e.Name(), p, li, inodes)
+			}
+			blobs = append(blobs, be)
+		}
+	}
+	// aliasing is part of the store state: a file that shares its inode with other files of the store lists them
+	for _, grp := range inodes {
+		if len(grp) < 2 {
+			continue
+		}
+		for _, e := range grp {
+			var others []string
+			for _, o := range grp {
+				if o["_id"] != e["_id"] {
+					others = append(others, o["_id"].(string))
+				}
+			}
+			sort.Strings(others)
+			e["linked"] = others
+		}
+	}
+	for _, grp := range inodes {
+		for _, e := range grp {
+			delete(e, "_id")
 		}
 	}
 	if es, err := os.ReadDir(dir); err == nil {
@@ -362,6 +390,22 @@ func project(dir string) map[string]any {
 	}
 	sort.Strings(other)
 	return map[string]any{"manifests": mans, "blobs": blobs, "other": other, "empty_dirs": emptyDirs}
+}
+
+// noteIdentity records what a directory listing cannot show by name: symbolic links and shared inodes
+func noteIdentity(e map[string]any, id, p string, info os.FileInfo, inodes map[uint64][]map[string]any) {
+	if info.Mode()&os.ModeSymlink != 0 {
+		t, _ := os.Readlink(p)
+		e["symlink"] = t
+		return
+	}
+	if st, ok := info.Sys().(*syscall.Stat_t); ok {
+		if st.Nlink > 1 {
+			e["nlink"] = st.Nlink
+		}
+		e["_id"] = id
+		inodes[st.Ino] = append(inodes[st.Ino], e)
+	}
 }
 
 // the API's own view: what is listed, and whether every listed model can be shown
